@@ -8,7 +8,7 @@ use crate::jws::encode_kid;
 use crate::logs::HasLogger;
 use crate::storage;
 use crate::{AccountSync, EndpointSync};
-use acme_common::crypto::Csr;
+use acme_common::crypto::{Csr, X509Certificate};
 use acme_common::error::Error;
 use serde_json::json;
 use std::fmt;
@@ -285,6 +285,8 @@ pub async fn request_certificate(
 		.await
 		.map_err(HttpError::in_err)?;
 	drop(data_builder);
+	X509Certificate::check_chain(crt.as_bytes(), &key_pair)
+		.map_err(|e| e.prefix("invalid certificate received"))?;
 	if is_new_key_pair {
 		storage::set_keypair(&cert.file_manager, &key_pair).await?;
 	}
